@@ -109,6 +109,11 @@ func (m *Manager[T]) Run() error {
 
 	stopping := false
 
+	// a closed channel is always ready, so stop is only selected once,
+	// otherwise the loop below spins (and keeps resetting the shutdown
+	// timer) until the last client has exited
+	chStop := m.stop
+
 	scan := func() {
 		if stopping {
 			return
@@ -123,7 +128,8 @@ func (m *Manager[T]) Run() error {
 done:
 	for {
 		select {
-		case <-m.stop:
+		case <-chStop:
+			chStop = nil
 			stopping = true
 			_ = m.upSub.Unsubscribe()
 			if len(m.clientStates) > 0 {
